@@ -40,6 +40,12 @@ def gen_parts(rng, verb=None, max_target=40, max_headers=4, eol=None):
         else:
             name = _bytes_excluding(rng, rng.randrange(1, 8), (0x0D, 0x0A, 0x3A))
             headers.append((name, b" v"))
+    if rng.random() < 0.06:
+        # a request that does not fit one 1500-byte frame (long cookie / long target): jumbo frames, coalesced captures
+        if rng.random() < 0.5:
+            headers.insert(rng.randrange(len(headers) + 1), (b"Cookie", b" " + bytes(rng.choice(TOKEN + b"=; ") for _ in range(rng.randrange(1300, 3600)))))
+        else:
+            target = b"/" + bytes(rng.choice(TOKEN + b"/.?=&%") for _ in range(rng.randrange(1300, 3600)))
     if eol is None:
         eol = rng.choice([b"\r\n", b"\n", None])
     n = len(headers) + 2
